@@ -132,6 +132,21 @@ CLAIMED.update({
     },
 })
 
+CLAIMED.update({
+    "C05": {
+        "text": "Machine-checked proof that the parser model returns exactly the roots denoted by every encoding the "
+                "strict decoder of the format accepts (all widths, index, cache bits, CRC, stored hashes, several roots, "
+                "any valid order, three magics), and that it rejects every proper prefix, every extension, every "
+                "single-bit flip of a CRC-protected bag (CRC-32C single-bit detection proved for any length) and "
+                "dangling/backward/self references. Differential run with an independent encoder and 7k corruptions.",
+        "design_ref": "DESIGN.md 4.5",
+        "technique": "Coq proof: field-by-field agreement of parser model and strict decoder, exact-length discipline, "
+                     "GF(2)-linearity of CRC-32C; correspondence by extracted OCaml model",
+        "note": "5 theorems closed under the global context. C05_accepts assumes the input is a byte string and that the "
+                "cells are constructible.",
+    },
+})
+
 PENDING_REASON = "check not built yet in this round (design in DESIGN.md section 4); not claimed until it exists"
 
 
